@@ -842,6 +842,55 @@ func (c *Ctx) isStrideLoop(fi *FuncInfo, l *Loop) bool {
 				return true
 			}
 		}
+		// general linear form: the loop continues under L ≤ 0 where L is linear in header φs (any
+		// coefficient) and loop-invariant values; every way round the loop raises L by at least 1
+		// (len(p) − (i + k) ≥ 8 with k += b, b ≥ 8 on the back edge)
+		stay := l.Blocks[b.Succs[0]]
+		fs := fi.factsOf([]Cond{{iff.Cond, stay}})
+		if len(fs) != 1 || fs[0].Op != LE {
+			continue
+		}
+		L := fs[0].L
+		okAtoms := true
+		type term struct {
+			ph *ssa.Phi
+			co int64
+		}
+		var terms []term
+		for a, co := range L.t {
+			v := fi.atomValue(a)
+			if v == nil {
+				okAtoms = false
+				break
+			}
+			if ph, isPhi := v.(*ssa.Phi); isPhi && ph.Block() == l.Header && !strings.HasPrefix(a, "len(") {
+				terms = append(terms, term{ph, co})
+				continue
+			}
+			if !c.loopInvariant(fi, l, v) {
+				okAtoms = false
+			}
+		}
+		if !okAtoms || len(terms) == 0 {
+			continue
+		}
+		good := true
+		for i, p := range l.Header.Preds {
+			if !l.Blocks[p] {
+				continue
+			}
+			delta := linConst(0)
+			for _, t := range terms {
+				delta = delta.addk(fi.lin(t.ph.Edges[i]).sub(linAtom(t.ph.Name())), t.co)
+			}
+			// (the back edge may leave its block on a branch: its own condition counts)
+			if !fi.proveLE0(linConst(1).sub(delta), fi.edgeConds(p, l.Header), nil, map[string]bool{}, 0) && !fi.proveAt(linConst(1).sub(delta), p, nil) {
+				good = false
+			}
+		}
+		if good {
+			return true
+		}
 	}
 	return false
 }
